@@ -32,21 +32,32 @@ def _mk(call):
     return lambda: forkoracle.encode(forkoracle.api_call(call))
 
 
+def _files(case):
+    """Restriction of the preemption points for shared-slot sweeps: the code objects that refer to the slot by name."""
+    name = case.get("accessor")
+    if not name:
+        return None
+    from lib import sharedstate
+    codes = sharedstate.accessor_codes(name)
+    return codes or None
+
+
 def trial_in_process(payload):
     """Runs in whichever process calls it. payload = (A, B, k, opcodes, mode)
     mode 'serial_ab': traced count of A (N_A), then B          -> (N_A, resA, resB)
     mode 'serial_ba': B then A                                   -> (None, resA, resB)
     mode 'trial'    : A preempted at k by B                      -> (count, resA, resB, where, fired)"""
-    A, B, k, opcodes, mode = payload
+    A, B, k, opcodes, mode = payload[:5]
+    only = payload[5] if len(payload) > 5 else None
     if mode == "serial_ab":
-        n, ra, _ = sched.run_preempted(_mk(A), None, -1, opcodes)
+        n, ra, _ = sched.run_preempted(_mk(A), None, -1, opcodes, only_codes=only)
         rb = sched._safe(_mk(B))
         return (n, ra, rb)
     if mode == "serial_ba":
         rb = sched._safe(_mk(B))
         ra = sched._safe(_mk(A))
         return (None, ra, rb)
-    n, ra, (rb, where, fired) = sched.run_preempted(_mk(A), _mk(B), k, opcodes)
+    n, ra, (rb, where, fired) = sched.run_preempted(_mk(A), _mk(B), k, opcodes, only_codes=only)
     return (n, ra, rb, where, fired)
 
 
@@ -61,11 +72,12 @@ def judge(case, col):
         run = lambda payload: z.call("checks.c16", "trial_in_process", payload)  # noqa: E731
     else:
         run = trial_in_process
-    nA, a1, b1 = run((A, B, -1, opcodes, "serial_ab"))
-    _, a2, b2 = run((A, B, -1, opcodes, "serial_ba"))
+    only = _files(case)
+    nA, a1, b1 = run((A, B, -1, opcodes, "serial_ab", only))
+    _, a2, b2 = run((A, B, -1, opcodes, "serial_ba", only))
     if not cold:
         # the first run may have filled lazy caches (more lines); count again in the now-warm state
-        nA, a1, b1 = run((A, B, -1, opcodes, "serial_ab"))
+        nA, a1, b1 = run((A, B, -1, opcodes, "serial_ab", only))
     if nA <= 0:
         # A executes no a5 python line (cannot happen for public functions)
         col.case(case, nontrivial=False, classes=("no_events",))
@@ -74,7 +86,10 @@ def judge(case, col):
         k = case["k"]
     else:
         k = min(nA - 1, int(case["u"] * nA))
-    n, ta, tb, where, fired = run((A, B, k, opcodes, "trial"))
+    if case.get("slot"):
+        run((A, B, -1, opcodes, "serial_ab", only))          # leave A's values in the shared slots before the trial
+        trial_in_process((A, A, -1, False, "serial_ba")) if not cold else None
+    n, ta, tb, where, fired = run((A, B, k, opcodes, "trial", only))
     rec = dict(case)
     rec["k"] = k
     rec.pop("u", None)
@@ -88,7 +103,7 @@ def judge(case, col):
         raise Violation("B_differs_inside_A", rec, observed=_short(tb), expected=_short(b1), note=f"ran at {where}, N_A={nA}")
     geo = (A[0] in apigen.GEOMETRY or A[0] in apigen.LISTY) and (B[0] in apigen.GEOMETRY or B[0] in apigen.LISTY)
     inside = 0 < k < nA
-    classes = ["hyp" if not case.get("sys") else "systematic", "cold" if cold else "warm", f"A:{A[0]}", f"B:{B[0]}"]
+    classes = ["hyp" if not case.get("sys") else ("systematic" if not case.get("slot") else "shared_slot_sweep"), "cold" if cold else "warm", f"A:{A[0]}", f"B:{B[0]}"]
     if inside:
         classes.append("fired_inside")
     if geo:
@@ -146,6 +161,72 @@ def stage_systematic(ctx):
             ctx.col.exhaustive[f"every line preemption point of {A[0]} vs {B[0]} (shard {ctx.shard})"] = True
 
 
+def stage_shared_slots(ctx):
+    """Aim schedules at shared mutable state (lib/sharedstate.py): run generated calls one after another, watch which
+    shared slots each call writes, and whenever a call overwrites a slot that an earlier call had written with a
+    different value, give that pair of calls the systematic sweep (every line preemption point, both roles)."""
+    import hypothesis
+    from hypothesis import HealthCheck, Phase, given, settings
+    from lib import sharedstate
+    calls = []
+    n = 700 if ctx.tier == "quick" else 6000
+
+    @hypothesis.seed(ctx.shard_seed)
+    @settings(max_examples=n, database=None, deadline=None, phases=[Phase.generate], suppress_health_check=list(HealthCheck))
+    @given(apigen.geometry_calls(lo=2))
+    def collect(c):
+        calls.append(c)
+    collect()
+    forkoracle.api_result(calls[0])                      # make sure lazily created containers exist
+    tr = sharedstate.Tracker()
+    owner = {}                                           # slot -> (call, value digest)
+    pairs = []
+    per_slot_family = {}
+    for c in calls:
+        forkoracle.api_result(c)
+        for slot, old, new in tr.diff():
+            prev = owner.get(slot)
+            if prev is not None and prev[1] != new and prev[0] != c and prev[1] != "None":
+                fam = slot.split("[")[0]
+                if per_slot_family.get(fam, 0) < (2 if ctx.tier == "quick" else 6):
+                    per_slot_family[fam] = per_slot_family.get(fam, 0) + 1
+                    pairs.append((prev[0], c, slot))
+            owner[slot] = (c, new)
+    # container slots (list index / dict key collisions) first, scalar attributes (counters and the like) last
+    pairs.sort(key=lambda p: ("__dict__" in p[2], ))
+    ctx.col.count("shared_slots_written", len(owner))
+    ctx.col.count("overwriting_call_pairs", len(pairs))
+    budget = 1500 if ctx.tier == "quick" else 30000         # preempted trials per shard
+    for X, Y, slot in pairs:
+        name = sharedstate.slot_name(slot)
+        codes = sharedstate.accessor_codes(name)
+        if not codes:
+            ctx.col.count("slot_without_accessor_code")
+            continue
+        for A, B in ((X, Y), (Y, X)):
+            if budget <= 0:
+                break
+            # preemption points: every line A executes in the functions that refer to the slot's container by name
+            forkoracle.api_result(A)
+            nA, _, _ = sched.run_preempted(_mk(A), None, -1, False, only_codes=codes)
+            # serial references once per pair (either order), then one warm-up + one trial per preemption point
+            _, a1, b1 = trial_in_process((A, B, -1, False, "serial_ab"))
+            _, a2, b2 = trial_in_process((A, B, -1, False, "serial_ba"))
+            for k in range(0, nA):
+                if budget <= 0:
+                    break
+                budget -= 1
+                forkoracle.api_result(A)                 # A's values are in the shared slots again
+                n, ta, (tb, where, fired) = sched.run_preempted(_mk(A), _mk(B), k, False, only_codes=codes)
+                case = {"A": A, "B": B, "k": k, "cold": False, "opcodes": False, "sys": True, "slot": slot, "accessor": name}
+                if fired and (ta not in (a1, a2) or tb not in (b1, b2)):
+                    judge(case, ctx.col)                 # re-judge from scratch: raises the Violation with full context
+                    ctx.col.count("slot_sweep_mismatch_not_reproduced")
+                ctx.col.case(case, nontrivial=fired and 0 < k, classes=("shared_slot_sweep", "fired_inside" if fired else "not_fired"))
+    if pairs:
+        ctx.col.notes.append({"shared_slot_pairs": [p[2] for p in pairs][:6]})
+
+
 def stage_threads(ctx):
     """Real threads with a 1 microsecond switch interval (probabilistic supplement)."""
     import hypothesis
@@ -185,7 +266,7 @@ def stage_threads(ctx):
 
 
 def plan(tier):
-    s = [Stage("hyp", 16, stage_hyp, cost=6), Stage("systematic", 16, stage_systematic, cost=8)]
+    s = [Stage("hyp", 16, stage_hyp, cost=6), Stage("systematic", 16, stage_systematic, cost=8), Stage("shared_slots", 16, stage_shared_slots, cost=7)]
     if tier == "thorough":
         s.append(Stage("threads", 4, stage_threads, cost=4))
     return s
